@@ -497,6 +497,12 @@ class SG:
             for oi, op in enumerate(r["ops"]):
                 if op[2] == "T":
                     same = [p for p in all_pos if p[0] == ri]
+                    if (op[0].startswith("Case") and oi >= 2 and r["ops"][oi - 1][0].startswith("Case") and r["ops"][oi - 2][0].startswith("Case")
+                            and isinstance(r["ops"][oi - 2][2], list) and self.b(1, 2)):
+                        # anchor shape: the case before the previous one goes to the same block (cases 0 and 2 share code,
+                        # case 1 lies in between - not expressible as grouped cases)
+                        op[2] = list(r["ops"][oi - 2][2])
+                        continue
                     if self.b(5, 6):
                         fwd = [p for p in same if p[1] > oi]
                         pool = fwd if fwd and self.b(3, 4) else same
@@ -510,6 +516,22 @@ class SG:
 def free_graphs(draw, max_routines=3, max_ops=12):
     g = SG(draw)
     rs = g.routines(max_routines, max_ops)
+    if draw(st.integers(0, 1)) == 0:
+        # a copied routine: the same flow graph once more under other operation names (scripts are full of routines
+        # made from one another) - whatever is numbered per routine comes out the same for both
+        import copy
+        import re
+
+        k = draw(st.integers(0, len(rs) - 1))
+        twin = copy.deepcopy(rs[k])
+        if twin.get("name"):
+            twin["name"] += "_T"
+        for op in twin["ops"]:
+            if re.fullmatch(r"op_\d+", op[0]):
+                op[0] += "t"
+            if isinstance(op[2], list) and op[2][0] == k:
+                op[2] = [len(rs), op[2][1]]
+        rs.append(twin)
     gaps = draw(st.lists(st.integers(0, 3), min_size=1, max_size=6))
     return {"stratum": 3, "routines": rs, "gaps": gaps, "first_offset": draw(st.integers(0, 5)), "name_table": draw(st.booleans())}
 
@@ -845,6 +867,16 @@ def degenerate_branch_in_loop(case) -> bool:
             hops += 1
         return k
 
+    # the cycle is one of the DECOMPILER's flow graph: with a Call anywhere in the routine set it keeps the edge from a
+    # Return / End / Hold / Destroy to the op behind it (see locally_reachable)
+    has_calls = any(op[0] == "Call" for r in case["routines"] for op in r["ops"])
+
+    def succ(ops, r_i, k):
+        out = _succ(ops, r_i, k)
+        if has_calls and ops[k][0] in T.STOP_OPS and ops[k][0] != "JumpCommon" and k + 1 < len(ops) and k + 1 not in out:
+            out.append(k + 1)
+        return out
+
     for r_i, r in enumerate(case["routines"]):
         ops = r["ops"]
         for i, op in enumerate(ops):
@@ -856,7 +888,7 @@ def degenerate_branch_in_loop(case) -> bool:
                     if k in seen or k >= len(ops):
                         continue
                     seen.add(k)
-                    stack.extend(_succ(ops, r_i, k))
+                    stack.extend(succ(ops, r_i, k))
                 if i in seen:
                     return True
     return False
